@@ -35,8 +35,7 @@ def main(chk):
         configs = [mk("default", "default", 2, 4), mk("orphan", "orphan", 2, 4), mk("all", "all", 2, 3), mk("none", "none", 2, 3)]
         deep = [dict(name="deep-" + n, casc=n, consts=oc.consts(n, 2, 5), invs=INVS, props=PROPS) for n in ("default", "orphan")]
     else:
-        configs = [mk("default-2x3", "default", 3, 4), mk("orphan-2x3", "orphan", 3, 4), mk("default-2x2", "default", 2, 5), mk("orphan-2x2", "orphan", 2, 5),
-                   mk("all-2x2", "all", 2, 4), mk("none-2x2", "none", 2, 4)]
+        configs = [mk("default-2x3", "default", 3, 4), mk("orphan-2x2", "orphan", 2, 5), mk("all-2x2", "all", 2, 4), mk("none-2x2", "none", 2, 4)]
         deep = [dict(name="deep-%s-2x3" % n, casc=n, consts=oc.consts(n, 3, 5), invs=INVS, props=PROPS) for n in ("default", "orphan")] + \
                [dict(name="deep-%s-2x2" % n, casc=n, consts=oc.consts(n, 2, 6), invs=INVS, props=PROPS) for n in ("all", "none")]
     expose = [dict(name="single-flush", casc="default", consts=oc.consts("default", 2, 4, acts=["Delete", "Append", "SetParent", "Flush"], init="loaded"),
